@@ -105,6 +105,7 @@ type scriptEnv struct {
 	mseqs   []func(n int) string // stored Matches / BackwardMatches values (mkms / mkbms / runm)
 	src     *countingSource
 	shared  bool // other goroutines use the same source at the same time (conc / sconc lines)
+	argTouched bool // a digit-source call saw the caller's pattern modified while a search was in progress
 }
 
 func digitsOf(s string) []int {
@@ -668,6 +669,10 @@ func (e *scriptEnv) execStmt(st string) string {
 		return "\"" + n.Sprintf(a[2]) + "\""
 	}
 	if r, ok := e.execFind(op, h, a); ok {
+		if e.argTouched {
+			e.argTouched = false
+			return "ARG-MODIFIED-DURING-CALL:" + r
+		}
 		return r
 	}
 	if r, ok := e.execPrint(op, h, a); ok {
